@@ -289,3 +289,104 @@ Proof.
   - intros Hlt. unfold linear_fn. destruct (Qle_bool (inject_Z 1 - p) f) eqn:E; cbn [negb]; [|reflexivity].
     apply Qle_bool_iff in E. change (inject_Z 1) with 1%Q in E. lra.
 Qed.
+
+(* ------------------------------------------------------------------ on-policy: minibatches per pass *)
+From SB3V Require Import Model.Minibatch.
+
+Lemma get_loop_length {A} b N (idx : list A) : (1 <= b)%nat -> forall fuel start, (N - start <= fuel)%nat ->
+  length (get_loop fuel start b N idx) = ((N - start + b - 1) / b)%nat.
+Proof.
+  intros Hb. induction fuel as [|f IH]; intros start Hf.
+  - cbn [get_loop length]. symmetry. apply Nat.div_small. lia.
+  - cbn [get_loop]. destruct (Nat.ltb_spec start N) as [Hlt|Hge].
+    + cbn [length]. rewrite IH by lia.
+      assert (E : forall x, (1 <= x)%nat -> ((x + b - 1) / b = (x - 1) / b + 1)%nat).
+      { intros x Hx. replace (x + b - 1)%nat with (x - 1 + 1 * b)%nat by lia. apply Nat.div_add. lia. }
+      rewrite (E (N - start)%nat) by lia.
+      destruct (le_lt_dec b (N - start)) as [Hc|Hc].
+      * replace (N - (start + b) + b - 1)%nat with (N - start - 1)%nat by lia. lia.
+      * replace (N - (start + b))%nat with 0%nat by lia. rewrite (Nat.div_small (N - start - 1) b) by lia.
+        rewrite Nat.div_small by lia. reflexivity.
+    + cbn [length]. symmetry. apply Nat.div_small. lia.
+Qed.
+
+(* one pass over a rollout of N samples in minibatches of b: ceil(N / b) optimizer steps *)
+Theorem minibatch_count {A} b (idx : list A) : (1 <= b)%nat ->
+  length (minibatches b idx) = ((length idx + b - 1) / b)%nat.
+Proof. intros Hb. unfold minibatches. rewrite (get_loop_length b (length idx) idx Hb) by lia. f_equal. lia. Qed.
+
+(* PPO's constructor: the warning is issued exactly when the last minibatch of every pass is truncated; the pass then has
+   (untruncated_batches + 1) minibatches, otherwise untruncated_batches; on_train_steps is n_epochs times that *)
+Theorem ppo_truncated_minibatch_law n_envs n_steps batch n_epochs : 0 < batch -> 0 <= n_envs * n_steps ->
+  let N := ppo_rollout_size n_envs n_steps in
+  N = n_envs * n_steps /\
+  (ppo_truncated_warning N batch = true <-> N mod batch <> 0) /\
+  on_train_steps n_epochs N batch =
+    n_epochs * (ppo_untruncated_batches N batch + (if ppo_truncated_warning N batch then 1 else 0)).
+Proof.
+  intros Hb HN. cbn zeta. unfold ppo_rollout_size, ppo_truncated_warning, ppo_untruncated_batches, on_train_steps.
+  set (N := n_envs * n_steps) in *. pose proof (Z.mod_pos_bound N batch Hb) as Hm. pose proof (Z.div_mod N batch ltac:(lia)) as Hd.
+  split; [reflexivity|]. split.
+  - destruct (Z.ltb_spec 0 (N mod batch)); split; intros; try lia; try discriminate; reflexivity.
+  - f_equal. destruct (Z.ltb_spec 0 (N mod batch)) as [Hlt|Hge].
+    + symmetry. apply Z.div_unique with (r := N mod batch - 1); [lia|]. nia.
+    + assert (N mod batch = 0) by lia. symmetry. apply Z.div_unique with (r := batch - 1); [lia|]. nia.
+Qed.
+
+(* ------------------------------------------------------------------ off-policy details *)
+(* gradient_steps = -1: as many gradient steps as timesteps collected in THAT rollout (vectorised steps x n_envs) *)
+Theorem train_event_minus_one ls gs num' s n_envs : gs < 0 ->
+  train_event (OffPolicy ls gs) num' (Z.of_nat s * n_envs) =
+  if gate num' ls && (0 <? Z.of_nat s * n_envs) then [(num', Z.of_nat s * n_envs)] else [].
+Proof. intros H. cbn [train_event]. unfold grad_steps. destruct (Z.leb_spec 0 gs); [lia|reflexivity]. Qed.
+
+(* one iteration of the loop when the callback does not stop it: the rollout of s vectorised steps advances the counter by
+   s * n_envs and is followed by the train() decided by train_event at that count *)
+Theorem loop_iteration m n_envs total stop s rest num : (forall n, stop n = false) -> num < total ->
+  let num' := num + Z.of_nat s * n_envs in
+  fst (fst (loop m n_envs total stop (s :: rest) num)) =
+    train_event m num' (Z.of_nat s * n_envs) ++ fst (fst (loop m n_envs total stop rest num')).
+Proof.
+  intros Hs Hlt. cbn zeta. rewrite loop_cons. destruct (Z.ltb_spec num total); [|lia].
+  rewrite collect_nostop by exact Hs.
+  destruct (loop m n_envs total stop rest (num + Z.of_nat s * n_envs)) as [[l fin] st]. reflexivity.
+Qed.
+
+(* learning_starts is compared with num_timesteps (timesteps, counted across sub-environments), not with the number of
+   calls: with equal rollouts of R timesteps from 0, the rollout ending at k*R trains iff k*R > learning_starts *)
+Theorem learning_starts_in_timesteps ls gs k R : 0 < R -> 0 < k ->
+  (train_event (OffPolicy ls gs) (k * R) R <> [] <-> ls < k * R /\ 0 < grad_steps gs R).
+Proof.
+  intros HR Hk. cbn [train_event]. unfold gate.
+  destruct (Z.ltb_spec 0 (k * R)); [|nia]. destruct (Z.ltb_spec ls (k * R)); destruct (Z.ltb_spec 0 (grad_steps gs R)); cbn [andb];
+    split; intros H'; try lia; try discriminate; try (exfalso; apply H'; reflexivity).
+Qed.
+
+(* ------------------------------------------------------------------ the linear exploration schedule of DQN *)
+Theorem linear_fn_range p s e f : (0 < f)%Q -> (0 <= p <= 1)%Q -> (e <= s)%Q -> (e <= linear_fn p s e f <= s)%Q.
+Proof.
+  intros Hf Hp He. unfold linear_fn. change (inject_Z 1) with 1%Q.
+  destruct (Qle_bool (1 - p) f) eqn:E; cbn [negb]; [|lra].
+  apply Qle_bool_iff in E.
+  assert (H1 : (0 <= (1 - p) / f <= 1)%Q).
+  { split; [apply Qle_shift_div_l; [exact Hf|lra]|apply Qle_shift_div_r; [exact Hf|lra]]. }
+  setoid_replace ((1 - p) * (e - s) / f)%Q with (((1 - p) / f) * (e - s))%Q by (field; lra).
+  set (x := ((1 - p) / f)%Q) in *. nra.
+Qed.
+
+(* as training progresses (progress_remaining decreases) the exploration rate never increases *)
+Theorem linear_fn_monotone p p' s e f : (0 < f)%Q -> (0 <= p' <= p)%Q -> (p <= 1)%Q -> (e <= s)%Q ->
+  (linear_fn p' s e f <= linear_fn p s e f)%Q.
+Proof.
+  intros Hf Hp Hp1 He.
+  pose proof (linear_fn_range p s e f Hf ltac:(lra) He) as R1. pose proof (linear_fn_range p' s e f Hf ltac:(lra) He) as R2.
+  unfold linear_fn in *. change (inject_Z 1) with 1%Q in *.
+  destruct (Qle_bool (1 - p') f) eqn:E'; destruct (Qle_bool (1 - p) f) eqn:E; cbn [negb] in *; try lra.
+  - apply Qle_bool_iff in E, E'.
+    setoid_replace ((1 - p') * (e - s) / f)%Q with (((1 - p') / f) * (e - s))%Q by (field; lra).
+    setoid_replace ((1 - p) * (e - s) / f)%Q with (((1 - p) / f) * (e - s))%Q by (field; lra).
+    assert (((1 - p) / f <= (1 - p') / f)%Q).
+    { unfold Qdiv. apply Qmult_le_compat_r; [lra|]. apply Qinv_le_0_compat. lra. }
+    set (x := ((1 - p) / f)%Q) in *. set (y := ((1 - p') / f)%Q) in *. nra.
+  - exfalso. apply Qle_bool_iff in E'. assert (Qle_bool (1 - p) f = true); [apply Qle_bool_iff; lra|congruence].
+Qed.
